@@ -61,3 +61,12 @@ INVARIANT EmitVerdict
 
 def validate_streams(traces, tag='rs'):
     return validate('Trace_RandomStreams', traces, RS_CFG, tag)
+
+SA_CFG = '''SPECIFICATION Spec
+CHECK_DEADLOCK FALSE
+INVARIANT EmitVerdict
+'''
+
+
+def validate_samples(records, tag='sa'):
+    return validate('SampleAlgebra', records, SA_CFG, tag)
